@@ -47,3 +47,33 @@ def meek_resolution(case, viol):
 
 def meek_s2_or_resolution(case, viol):
     return meek_s2(case, viol) or meek_resolution(case, viol)
+
+
+def highres_ref_differs(case, viol):
+    """F23: the statutory fixed-digit arithmetic (qpq: guarded 9+9, meek-prf: fixed 9) is exhausted by a huge electorate:
+    the reference count of the same election with 12 more digits elects a different set of candidates than droop does
+    (and than the same-digit reference, which droop matches - C03).  If the high-resolution count agrees with droop,
+    the violation is not a resolution artefact and stays new."""
+    from . import drive, model
+    from .ref import qpq, meek_prf
+    from .props.C11 import delete_withdrawn
+    c = case.get('case', case)
+    rule = c.get('rule')
+    if rule not in ('qpq', 'meek-prf'):
+        return False
+    o = drive.run(c)
+    if not o.ok or o.stage != 'done':
+        return False
+    wd = set(c.get('withdrawn') or [])
+    cd = delete_withdrawn(c) if wd else c
+    keep = [x for x in range(1, c['ncand'] + 1) if x not in wd]
+    back = {i + 1: x for i, x in enumerate(keep)}
+    ballots = [(m, [rk[0] for rk in r]) for m, r in model.kept_ballots(cd)]
+    tie = cd.get('tie') or list(range(1, cd['ncand'] + 1))
+    if rule == 'qpq':
+        hist = qpq.count(cd['ncand'], cd['nseats'], ballots, tie, P=9, G=21)
+        winners = sorted(back[x] for x in hist[-1][1])
+    else:
+        hist = meek_prf.count(cd['ncand'], cd['nseats'], ballots, tie, P=21, OM=6)
+        winners = sorted(back[x] for x in hist[-1][1])
+    return winners != o.elected
